@@ -639,6 +639,10 @@ pub fn evaluate_ast(
                 PostfixOp::Factorial => {
                     let n = val.as_number()?;
                     if n >= 0.0 && n == (n as u64) as f64 {
+                        // 171! already exceeds the largest double; do not loop up to n
+                        if n > 170.0 {
+                            return Ok(Number(f64::INFINITY));
+                        }
                         Ok(Number(
                             (1..(n as u64) + 1).map(|x| x as f64).product::<f64>(),
                         ))
